@@ -19,13 +19,13 @@ theorem small_not_cache (c : CaseM) (x : Nat) (h : x < 10) : (caseCfg c).cache.c
 theorem small_not_mem (c : CaseM) (x : Nat) (h : x < 10) : x ∉ (caseCfg c).cache := fun hm => by
   have := cache_cell_ge c x hm; omega
 
-theorem opActs_clean (c : CaseM) (o : OpM) (ho : o ∈ c.ops) (hx : opExcl o = false) :
-    ∀ a ∈ opActs o, cleanAct (caseCfg c) a = true := by
+theorem opActs_clean (c : CaseM) (tid : Nat) (o : OpM) (ho : o ∈ c.ops) (hx : opExcl o = false)
+    (hxt : opExclT o = false) : ∀ a ∈ opActs tid o, cleanAct (caseCfg c) a = true := by
   intro a ha
   have rd : ∀ x : Nat, x < 10 → cleanAct (caseCfg c) (.read x) = true := by
     intro x hlt; simp [cleanAct, small_not_mem c x hlt]
-  simp only [opActs, hx, List.mem_append] at ha
-  rcases ha with ((((ha | ha) | ha) | ha) | ha) | ha
+  simp only [opActs, hx, hxt, List.mem_append] at ha
+  rcases ha with ((((((ha | ha) | ha) | ha) | ha) | ha) | ha) | ha
   · simp only [List.mem_singleton] at ha; subst ha; exact rd 0 (by omega)
   · split at ha
     · simp only [List.mem_singleton] at ha; subst ha; exact rd 1 (by omega)
@@ -49,6 +49,10 @@ theorem opActs_clean (c : CaseM) (o : OpM) (ho : o ∈ c.ops) (hx : opExcl o = f
       simp only [cleanAct, List.contains_iff_mem, caseCfg, List.mem_append, List.mem_map]
       exact Or.inr ⟨o, ho, rfl⟩
     · simp at ha
+  · split at ha
+    · simp only [List.mem_singleton] at ha; subst ha; exact rd 3 (by omega)
+    · simp at ha
+  · simp at ha
   · simp at ha
 
 /-- all actions of all live threads satisfy P -/
@@ -134,10 +138,17 @@ theorem caseTrace_clean (c : CaseM) (hx : Excl c = false) : CleanTrace (caseCfg 
   | some o =>
     simp only [hget] at ha
     have ho : o ∈ c.ops := List.mem_of_getElem? hget
+    have hx' : ExclSharedDefault c = false ∧ ExclTypeInfo c = false := by
+      simpa [Excl, Bool.or_eq_false_iff] using hx
     have hxo : opExcl o = false := by
-      simp only [Excl, List.any_eq_false] at hx
-      simpa using hx o ho
-    exact opActs_clean c o ho hxo a ha
+      have := hx'.1
+      simp only [ExclSharedDefault, List.any_eq_false] at this
+      simpa using this o ho
+    have hxt : opExclT o = false := by
+      have := hx'.2
+      simp only [ExclTypeInfo, List.any_eq_false] at this
+      simpa using this o ho
+    exact opActs_clean c j o ho hxo hxt a ha
 
 theorem sigma0_lazy (c : CaseM) : LazyInit (caseCfg c) sigma0 := by
   intro x hx
